@@ -262,25 +262,32 @@ def r11_5(ctx) -> None:
     eng = ctx.eng
     P = eng.prog
     h = P.func("rfc7518.rsa_key:has_all_prime_factors")
-    cfg = cfg_of(h)
-    props = None
-    for n in fn_nodes(h):
-        if isinstance(n, ast.Assign) and isinstance(n.value, ast.List) and all(isinstance(e, ast.Constant) for e in n.value.elts):
-            props = {e.value for e in n.value.elts}
-    okp = props == {"p", "q", "dp", "dq", "qi"}
-    t_all = [t for t in cfg.nodes if t.kind == "test" and isinstance(t.ast, ast.Call) and isinstance(t.ast.func, ast.Name) and t.ast.func.id == "all"]
-    t_any = [t for t in cfg.nodes if t.kind == "test" and isinstance(t.ast, ast.Call) and isinstance(t.ast.func, ast.Name) and t.ast.func.id == "any"]
-    ok = okp and bool(t_all) and bool(t_any)
-    if ok:
-        # all -> return True ; any (not all) -> raise ; else return False
-        ta, tn = t_all[0], t_any[0]
-        r_true = [r for r in cfg.returns() if is_const(r.ast.value, True)]
-        r_false = [r for r in cfg.returns() if is_const(r.ast.value, False)]
-        ok = bool(r_true) and bool(r_false) and all(r in cfg.reachable(succ_by_label(cfg, ta, "true")[0]) for r in r_true) \
-            and not can_reach_exit(cfg, succ_by_label(cfg, tn, "true")) and all(cfg.must_pass(cfg.entry, r, [tn]) for r in r_false) \
-            and all(r not in cfg.reachable(s0) for s0 in succ_by_label(cfg, ta, "false") for r in r_true)
-    ctx.check(ok, "R11.5", h, h.node, h.short, "has_all_prime_factors does not raise exactly when some but not all of p, q, dp, dq, qi are present", "all -> True; some -> raise ValueError; none -> False",
-              construct="CRT all-or-none")
+    # the decision function is folded (S7) over all 32 presence patterns of the five CRT members: whatever its spelling, it returns True for all five,
+    # False for none, and raises for every partial set
+    import itertools
+    from ..fold import FoldRaise
+    F = eng.folder
+    names = ["p", "q", "dp", "dq", "qi"]
+    bad = []
+    undecided = []
+    for k in range(len(names) + 1):
+        for sub in itertools.combinations(names, k):
+            d = {"n": "AQ", "e": "AQAB", "d": "AQ"}
+            d.update({m_: "AQ" for m_ in sub})
+            try:
+                v = F.call(FuncVal(h, None, None), [d], {})
+                got = v
+            except FoldRaise:
+                got = "raise"
+            want = True if k == len(names) else (False if k == 0 else "raise")
+            if is_unknown(got):
+                undecided.append(sub)
+            elif got is not want and got != want:
+                bad.append((sub, got))
+    if undecided and not bad:
+        raise AnalysisError(f"has_all_prime_factors did not fold for {undecided[:2]}")
+    ctx.check(not bad, "R11.5", h, h.node, h.short, f"has_all_prime_factors does not raise exactly when some but not all of p, q, dp, dq, qi are present: {bad[:3]}",
+              "all -> True; some -> raise ValueError; none -> False", construct="CRT all-or-none")
     ip = P.cls(BINDINGS["RSAKey"]).methods["import_private_key"]
     cfgi = cfg_of(ip)
     hs = [cfgi.node_of(s.node) for s in eng.cg.calls_in(ip) if h in s.callees]
